@@ -36,6 +36,9 @@ T_BASE = [
     "writeln(0 - x - 1);",
     # the condition itself has effects (output, a global store): they belong to the timeline in which defeat is reached
     "!truth_is_defeat(chk(x)); write(g);",
+    # strict 0/1 booleans and threaded comparison jumps decide between continuing and defeat
+    "{ bool bq = (x * 2) is bool; write(bq is int); !truth_is_defeat(bq == true); }",
+    "if (not (x == 1)) { write('n'); } else { !truth_is_defeat(g > 5); } if (x > 1 or g > 7) { write('o'); } else { !is_defeat(); }",
 ]
 
 
